@@ -31,6 +31,9 @@ CHECKS.update({
 CHECKS.update({
  "C14": ("7/C14", "Hypothesis RuleBasedStateMachine over document / nested-set / scope mappings with a nested-dict model; text read back as data", "A rule-based state machine performs get/set/delete (existing, absent, into non-mappings, rebinding the name an identifier-bodied document goes through) on the three mapping kinds; after every rule the dictionary law of the rule and the equality of the rebuilt text (read back as nested data by the independent reader) with the model are checked.", TB),
 })
+CHECKS.update({
+ "C02": ("7/C02", "metamorphic generation from upstream nixfmt-validated fixtures (layout-preserving transformations) + package-idiom printer; byte-equality oracle", "Canonical inputs are derived from the texts the repository's tests assert to be nixfmt-stable by transformations RFC 0166 treats as layout-neutral (whole-line item duplication/removal/swap, renames, literal changes, own-line comments, single blank lines), growing to 80+ bindings and deeper nesting; each must be rebuilt byte for byte and accepted by `nima test`.", TB + " nixfmt is not available offline: canonical-ness is inherited from upstream's validated fixtures."),
+})
 for pid, mod in [("C01", "round trip: token-sequence equality after rebuild"), ("C03", "round trip: comment multiset/order/barrier-position oracle"), ("C06", "round trip: second-pass fixed point + CLI test"), ("C18", "round trip: lexical spacing normal-form scan")]:
     pass
 
